@@ -40,11 +40,16 @@ def faulty_class(cls: type) -> type:
         f = self.__dict__.get("_sim_fault")
         if f is not None:
             f["calls"] += 1
+            if f.get("on_call") is not None and a:
+                f["on_call"](a[0])
             if f["calls"] == f["n"]:
                 f["fired"] = True
                 if f.get("snapshot") is not None and a:
                     f["snapshot"](a[0])
                 raise f["exc"]
+            result = real(self, *a, **kw)
+            f["returned"] = f.get("returned", 0) + 1
+            return result
         return real(self, *a, **kw)
 
     sub = type(cls.__name__, (cls,), {meth: wrapper, "__module__": cls.__module__, "_sim_real_class": cls})
@@ -56,10 +61,10 @@ class Armed:
     """Context manager: swap obj.__class__ to its faulty subclass for the duration, armed to raise
     `kind` at the n-th call of its working method; restores class and attributes on exit."""
 
-    def __init__(self, obj: Any, n: int, kind: str, snapshot=None) -> None:
+    def __init__(self, obj: Any, n: int, kind: str, snapshot=None, on_call=None) -> None:
         self.obj, self.n, self.kind = obj, n, kind
         self.exc = make_exc(kind, "component")
-        self.state = {"calls": 0, "n": n, "exc": self.exc, "fired": False, "snapshot": snapshot}
+        self.state = {"calls": 0, "n": n, "exc": self.exc, "fired": False, "snapshot": snapshot, "on_call": on_call}
 
     def __enter__(self):
         self.orig = self.obj.__class__
